@@ -295,6 +295,8 @@ def build_for(pid, tier):
                         descr='constructor: init only; creation deposit locked (locked_funds = table sum), vesting from the creation epoch; pledge-total / cron consequences',
                         bounds='CUTS: State::new, calculate_create_miner_deposit, assign_proving_period_offset, MinerInfo::new, add_locked_funds contract; no control addresses',
                         max_paths=20000))
+    from . import miner_cron
+    O += miner_cron.build_for(pid, tier)
     return O
 
 
